@@ -99,6 +99,18 @@ def cases(rng, tier):
             ops += [("RELEASE", "fw_begin"), ("WAITMORE", "fw_wal_cleaned", 1)]
             ops += [("RELEASE", point), ("JOIN",), ("SETTLE",), ("O",)]
             out.append(shardprop.mk_case("reader-mid-setup", cfg, ntypes, nctx, ops))
+        elif i % 12 == 2:
+            # a reader holds the lock of the passive buffer while the flush of that buffer runs up to the point where it
+            # releases the in-memory copy: the flush must still release it (afterwards, at rest, COUNT = selection)
+            cap = cfg["fill_factor"] * cfg["event_per_zone"]
+            u = rng.below(ntypes)
+            ops = [("PARK", "fw_begin")]
+            ops += [("SN", u if j == 0 else rng.below(ntypes), rng.below(nctx)) for j in range(cap)] + [("WAITP", "fw_begin")]
+            ops += [("PARK", "rd_passive_locked"), ("BGQ", u), ("WAITP", "rd_passive_locked"), ("MARKHITS", "fw_published")]
+            ops += [("RELEASE", "fw_begin"), ("WAITMORE", "fw_published", 1), ("SLEEP", 150)]
+            ops += [("RELEASE", "rd_passive_locked"), ("JOIN",), ("SETTLE",), ("O",)]
+            ops += [("SN", rng.below(ntypes), rng.below(nctx)), ("SETTLE",), ("O",)]
+            out.append(shardprop.mk_case("reader-holds-passive-through-release", cfg, ntypes, nctx, ops))
         elif i % 12 == 10:
             # a flush that fails (a file blocks the segment directory): the passive copy stays the only
             # readable copy and must keep being read; no model prediction for the failed flush (oracle only)
